@@ -1395,6 +1395,9 @@ def native_attr(engine, run, obj, attr):   # noqa: F811
                     run.define(r >= v, "max of an array is >= every entry")
                 cache[key] = r
                 run.ghost.setdefault("cell_reduction_list", []).append((obj, attr, r))
+                hook = run.ghost.get("reduction_hook")          # a contract may state a precondition that relates the reduction to its inputs
+                if hook is not None:
+                    hook(run, obj, attr, r)
                 run.trust(f"numpy: ndarray.{attr}() (non-empty array)")
             return cache[key]
         return SNative(red, "ndarray." + attr)
